@@ -3,7 +3,7 @@
 use crate::conv::{from_val, to_pid, to_val};
 use crate::core::{Rng, Tape, World, YieldCfg, execute};
 use crate::net::{Chunking, EndCfg};
-use crate::nodeenv::{PEER_NAME, SUT_NAME, install_conforming_peer, start_node};
+use crate::nodeenv::{OTHER_ADDR, OTHER_NAME, PEER_NAME, SUT_NAME, install_conforming_peer, install_conforming_peer_at, start_node};
 use crate::peer::{NetCfg, OTP_FLAGS_BASE, ServerConn, read_frame4};
 use crate::procs::{Got, Hist, History, Recorder, poison};
 use crate::runner::{Info, RunOutput, Scenario, Tier, finish};
@@ -77,6 +77,15 @@ struct Plan {
     legacy_ids: bool,
     #[serde(default)]
     salt: u64,
+    /// > 0: the node is connected to a second, well-behaved node as well ("other@otherhost"), which sends
+    /// this many messages to a process of its own while the first peer's script runs
+    #[serde(default)]
+    bystander: u32,
+    #[serde(default)]
+    bystander_gap_ms: u64,
+    /// the connection to the second node is made before the one to the first
+    #[serde(default)]
+    bystander_first: bool,
 }
 
 pub struct C19;
@@ -166,8 +175,14 @@ impl Scenario for C19 {
             creation: *r.pick(&[3u32, 3, 1, 5, 200, 255, 70_000]),
             legacy_ids: r.chance(1, 4),
             salt: r.next_u64(),
+            ..Default::default()
         };
         let mut p = p;
+        if r.chance(1, 3) {
+            p.bystander = r.range(2, 12) as u32;
+            p.bystander_gap_ms = *r.pick(&[0u64, 5, 200, 3_000, 12_000]);
+            p.bystander_first = r.chance(1, 2);
+        }
         if p.frames.iter().any(|f| f.kind == "burst") {
             // a thousand frames through a byte-at-a-time, pausing reader would take simulated minutes:
             // bursts run on a calm link (the point is the mailbox, not the socket)
@@ -200,9 +215,80 @@ impl Scenario for C19 {
             components_stubbed: &["TCP (SimNet)", "EPMD (stub)", "remote node (scripted peer, independent encoder)"],
             assumptions: &["mid-frame delays stay below the read timeout; only idle gaps are long", "the peer's ticks are what a conforming OTP node sends (zero-length frames at its tick period)"],
             fault_prefixes: &["fault.", "net."],
-            expected_probes: &["probe.c19.delivered_send", "probe.c19.delivered_reg_send", "probe.c19.delivered_exit", "probe.c19.delivered_mon_exit", "probe.c19.rpc_reply_delivered", "probe.c19.dropped_unknown_recipient", "probe.c19.survived_junk", "probe.c19.survived_quiet_period", "probe.c19.deregistered_after_fatal", "probe.c19.reconnected", "probe.c19.checkpoint_ok", "probe.c19.near_miss_not_taken_as_reply", "probe.c19.killed_process_prefix_ok", "probe.c19.long_junk_run", "probe.c19.burst_above_mailbox_capacity", "probe.c19.local_operation_failed_without_io", "probe.c19.name_changed_hands", "probe.c19.notices_behind_a_full_mailbox", "probe.c19.stall_inside_a_frame_beyond_the_read_timeout", "probe.c19.local_close_then_connect_again"],
+            expected_probes: &["probe.c19.delivered_send", "probe.c19.delivered_reg_send", "probe.c19.delivered_exit", "probe.c19.delivered_mon_exit", "probe.c19.rpc_reply_delivered", "probe.c19.dropped_unknown_recipient", "probe.c19.survived_junk", "probe.c19.survived_quiet_period", "probe.c19.deregistered_after_fatal", "probe.c19.reconnected", "probe.c19.checkpoint_ok", "probe.c19.near_miss_not_taken_as_reply", "probe.c19.killed_process_prefix_ok", "probe.c19.long_junk_run", "probe.c19.burst_above_mailbox_capacity", "probe.c19.local_operation_failed_without_io", "probe.c19.name_changed_hands", "probe.c19.notices_behind_a_full_mailbox", "probe.c19.stall_inside_a_frame_beyond_the_read_timeout", "probe.c19.local_close_then_connect_again", "probe.c19.second_node_messages_delivered", "probe.c19.second_node_connection_usable", "probe.c19.second_node_rpc_reply_delivered"],
         }
     }
+}
+
+const BYSTANDER_PROC: usize = 50;
+
+/// The second node: conforming throughout. Sends `n` messages to `to`, `gap` ms apart, ticks at its tick
+/// period, answers probe calls, and keeps the stream open.
+async fn bystander_conn(w: Arc<World>, conn: ServerConn, to: Val, n: u32, gap: u64, tick_ms: u64, sent: Arc<Mutex<(Vec<Val>, bool)>>) {
+    let ServerConn { mut read, mut write, .. } = conn;
+    let (tx, mut rx) = mpsc::unbounded_channel::<Vec<u8>>();
+    tokio::spawn(async move {
+        while let Some(b) = rx.recv().await {
+            if write.write_all(&b).await.is_err() {
+                break;
+            }
+        }
+    });
+    let tx_r = tx.clone();
+    let rpc_from: Arc<Mutex<Option<Val>>> = Arc::new(Mutex::new(None));
+    let from_r = rpc_from.clone();
+    tokio::spawn(async move {
+        let mut cache = RecvCache::default();
+        loop {
+            let Ok(body) = read_frame4(&mut read).await else { break };
+            if body.is_empty() {
+                continue;
+            }
+            let Ok(msg) = wire::parse_dist_frame(&body, &mut cache) else { continue };
+            let Some(c) = msg.control.as_tuple() else { continue };
+            if c.len() == 4 && c[0].as_i64() == Some(6) {
+                let args = msg.payload.as_ref().and_then(|p| p.as_tuple()).and_then(|t| t.get(1)).and_then(|c| c.as_tuple()).and_then(|c| c.get(3)).cloned();
+                if matches!(&args, Some(Val::List(els, _)) if els.first().and_then(|v| v.as_i64()) == Some(999)) {
+                    let pl = Val::tuple(vec![Val::atom("rex"), Val::atom("probe_ok_other")]);
+                    let _ = tx_r.send(wire::frame4(&wire::pass_through(&Val::tuple(vec![Val::int(2), Val::atom(""), c[1].clone()]), Some(&pl))));
+                } else {
+                    // the call this node leaves outstanding until its script is over
+                    *from_r.lock().unwrap() = Some(c[1].clone());
+                }
+            }
+        }
+    });
+    let tx_t = tx.clone();
+    tokio::spawn(async move {
+        loop {
+            tokio::time::sleep(Duration::from_millis(tick_ms)).await;
+            if tx_t.send(wire::frame4(&[])).is_err() {
+                break;
+            }
+        }
+    });
+    for i in 0..n {
+        tokio::time::sleep(Duration::from_millis(gap * u64::from(1 + i % 3))).await;
+        let pl = Val::tuple(vec![Val::atom("remote"), Val::atom("other_node"), Val::int(i128::from(i))]);
+        sent.lock().unwrap().0.push(pl.clone());
+        let _ = tx.send(wire::frame4(&wire::pass_through(&Val::tuple(vec![Val::int(2), Val::atom(""), to.clone()]), Some(&pl))));
+        w.stat("c19.second_node_message_sent");
+    }
+    // the answer to the call that has been outstanding all along
+    for _ in 0..20_000 {
+        if rpc_from.lock().unwrap().is_some() {
+            break;
+        }
+        tokio::time::sleep(Duration::from_millis(5)).await;
+    }
+    if let Some(from) = rpc_from.lock().unwrap().clone() {
+        let pl = Val::tuple(vec![Val::atom("rex"), Val::tuple(vec![Val::atom("other_result"), Val::int(i128::from(n))])]);
+        let _ = tx.send(wire::frame4(&wire::pass_through(&Val::tuple(vec![Val::int(2), Val::atom(""), from]), Some(&pl))));
+        w.stat("c19.second_node_replied");
+    }
+    sent.lock().unwrap().1 = true;
+    // keep the stream (and the tasks above) alive until the run ends
+    std::future::pending::<()>().await;
 }
 
 enum Cmd {
@@ -668,6 +754,34 @@ async fn scenario(w: &Arc<World>, p: &Plan) {
             tokio::time::sleep(Duration::from_millis(1)).await;
         }
     }
+    // the second node and the process it writes to
+    let by_sent: Arc<Mutex<(Vec<Val>, bool)>> = Arc::new(Mutex::new((Vec::new(), false)));
+    let mut by_pid = None;
+    if p.bystander > 0 {
+        let rec = Recorder { idx: BYSTANDER_PROC, hist: hist.clone(), world: w.clone(), stall_16: 0, max_stall_ms: 0 };
+        match node.spawn(rec).await {
+            Ok(pid) => by_pid = Some(pid),
+            Err(e) => {
+                w.violation("HARNESS-setup", format!("spawn failed: {}", e));
+                return;
+            }
+        }
+        let (to, n, gap, tick, sent) = (crate::conv::pid_val(by_pid.as_ref().unwrap()), p.bystander, p.bystander_gap_ms, p.tick_ms, by_sent.clone());
+        install_conforming_peer_at(
+            w,
+            OTHER_ADDR,
+            OTHER_NAME,
+            NetCfg { client: p.client.clone(), server: p.server.clone(), cap: 0 },
+            OTP_FLAGS_BASE,
+            move |w, conn, _seen| Box::pin(bystander_conn(w, conn, to.clone(), n, gap, tick, sent.clone())),
+        );
+        if p.bystander_first {
+            if let Err(e) = node.connect(OTHER_NAME).await {
+                w.violation("HARNESS-setup", format!("connect to the second node failed: {}", e));
+                return;
+            }
+        }
+    }
     let ps = Arc::new(Mutex::new(PeerShared { rpc_from: None, fatal_at_ms: None, script_done: false, second_connected: false, sent_upto: 0, max_silence_ms: 0 }));
     let exp = Arc::new(Mutex::new(Expect { per_proc: vec![Vec::new(); p.n_procs as usize], rpc_reply: None, killed: vec![false; p.n_procs as usize], name_owner: (0..p.n_procs as usize).collect() }));
     let (ck_tx, mut ck_rx) = mpsc::unbounded_channel::<(usize, oneshot::Sender<()>)>();
@@ -713,8 +827,21 @@ async fn scenario(w: &Arc<World>, p: &Plan) {
         w.violation("HARNESS-setup", format!("connect to the conforming peer failed: {}", e));
         return;
     }
+    if p.bystander > 0 && !p.bystander_first {
+        if let Err(e) = node.connect(OTHER_NAME).await {
+            w.violation("HARNESS-setup", format!("connect to the second node failed: {}", e));
+            return;
+        }
+    }
     w.set_yield_cfg(YieldCfg { intensity: p.yield_intensity, site_mask: p.yield_mask, max_sleep_ms: 2 });
 
+    // a call to the second node, outstanding until that node's script is over
+    let rpc_other = if p.bystander > 0 {
+        let node_o = node.clone();
+        Some(tokio::spawn(async move { node_o.rpc_call_raw_with_timeout(OTHER_NAME, "m", "f", vec![OwnedTerm::Integer(8), OwnedTerm::Integer(8)], Duration::from_secs(40 * 3600)).await }))
+    } else {
+        None
+    };
     // the outstanding rpc
     let node_rpc = node.clone();
     let rpc_task = tokio::spawn(async move { node_rpc.rpc_call_raw_with_timeout(PEER_NAME, "m", "f", vec![OwnedTerm::Integer(7), OwnedTerm::Integer(7)], Duration::from_secs(40 * 3600)).await });
@@ -864,6 +991,74 @@ async fn scenario(w: &Arc<World>, p: &Plan) {
     }
     w.set_yield_cfg(YieldCfg::default());
     tokio::time::sleep(Duration::from_millis(m + 500)).await;
+
+    // ---- the second node: whatever the first peer did, its stream is intact and its messages arrived ----
+    if p.bystander > 0 {
+        for _ in 0..200_000 {
+            if by_sent.lock().unwrap().1 {
+                break;
+            }
+            tokio::time::sleep(Duration::from_millis(5)).await;
+        }
+        tokio::time::sleep(Duration::from_millis(m + 200)).await;
+        let (want, done) = by_sent.lock().unwrap().clone();
+        if !done {
+            w.violation("HARNESS-bystander", "the second node's script did not finish".to_string());
+        }
+        let got: Vec<Val> = hist
+            .lock()
+            .unwrap()
+            .events
+            .iter()
+            .filter(|e| e.proc_idx == BYSTANDER_PROC)
+            .filter_map(|e| match &e.got {
+                Got::Regular(v) => Some(v.clone()),
+                Got::Terminate => None,
+                other => Some(Val::atom(&format!("{:?}", other).chars().take(60).collect::<String>())),
+            })
+            .collect();
+        if got == want {
+            w.stat("probe.c19.second_node_messages_delivered");
+        } else {
+            let pos = got.iter().zip(want.iter()).position(|(a, b)| a != b).unwrap_or(got.len().min(want.len()));
+            let class = if got.len() > want.len() && pos == want.len() {
+                "extra-delivery"
+            } else if got.len() < want.len() && pos == got.len() {
+                "lost-delivery"
+            } else {
+                "wrong-delivery"
+            };
+            w.violation(
+                class,
+                format!(
+                    "a second, well-behaved node sent {} messages to a live process over its own connection; the handler saw {}; first difference at {}: got {:?}, expected {:?}",
+                    want.len(),
+                    got.len(),
+                    pos,
+                    got.get(pos).map(|v| v.short()),
+                    want.get(pos).map(|v| v.short())
+                ),
+            );
+        }
+        if let Some(t) = rpc_other {
+            let want = Val::tuple(vec![Val::atom("rex"), Val::tuple(vec![Val::atom("other_result"), Val::int(i128::from(p.bystander))])]);
+            match tokio::time::timeout(Duration::from_millis(10), t).await {
+                Ok(Ok(Ok(v))) if to_val(&v) == want => w.stat("probe.c19.second_node_rpc_reply_delivered"),
+                Ok(Ok(Ok(v))) => w.violation("wrong-delivery", format!("the call to the second node returned {} instead of that node's reply", to_val(&v).short())),
+                Ok(Ok(Err(e))) => w.violation("lost-delivery", format!("the call to the second node failed with {} although that node replied over an intact stream", e)),
+                _ => w.violation("lost-delivery", "the call to the second node is still pending although that node replied".to_string()),
+            }
+        }
+        if !node.connections().contains_key(OTHER_NAME) {
+            w.violation("deregistered-while-healthy", format!("the connection to a second node, whose stream is intact and ticking, is no longer listed (the first peer's script ended with '{}')", p.fatal));
+        } else {
+            match node.rpc_call_raw_with_timeout(OTHER_NAME, "m", "f", vec![OwnedTerm::Integer(999), OwnedTerm::Integer(1)], Duration::from_millis(2000 + 2 * m)).await {
+                Ok(v) if to_val(&v) == Val::tuple(vec![Val::atom("rex"), Val::atom("probe_ok_other")]) => w.stat("probe.c19.second_node_connection_usable"),
+                Ok(v) => w.violation("probe-wrong-reply", format!("a probe call to the second node returned {}", to_val(&v).short())),
+                Err(e) => w.violation("unusable-while-registered", format!("the connection to the second node is listed but a probe call failed: {}", e)),
+            }
+        }
+    }
 
     // ---- history oracles ----
     let exp = exp.lock().unwrap();
